@@ -353,8 +353,10 @@ func (r *report) replayAll(tmp string) {
 				}
 				c := Case{ID: fmt.Sprintf("%s#v%d", res.Name, idx), Harness: res.Name, Scalars: v.Scalars, Bytes: v.Bytes}
 				lim := 60 * time.Second
-				outs, raw := runReplayBinary(bin, tmp, []Case{c}, 6<<20, 3*time.Minute)
-				_ = lim
+				if v.Kind != "hang" {
+					lim = 3 * time.Minute // a run that is expected to terminate gets ample time
+				}
+				outs, raw := runReplayBinary(bin, tmp, []Case{c}, 6<<20, lim)
 				var o *Outcome
 				if len(outs) > 0 {
 					o = &outs[0]
